@@ -123,4 +123,42 @@ def handleC05VF (ty inp m : String) (out : List String) : String :=
      | _, _ => "BADLINE c05 vf out")
   | _, _, _ => "BADLINE c05 vf"
 
+/-- `c05 lf <type> (<dest.bits,…> <vars bits,…>)… => (<dest.bits,…> <vars bits,…>)…` : a SEQUENCE of layered updates on ONE
+arithmetic object (degrees vary, so stale scratch buffers would show); every call is compared with the stateless model -/
+def parseFs (s : String) : Option (List Float) :=
+  if s == "." then some [] else (s.splitOn ",").mapM parseF
+
+def layerModel (ty : String) (msgs : List (Nat × Float)) (vars : List Float) : Option (List (Nat × Float) × List Float) :=
+  let S := Sc.float
+  match family ty with
+  | "phi" => layerBy S (fun l => some (checkPhi S l)) msgs vars
+  | "tanh" => layerBy S (fun l => some (checkTanh S (if ty.endsWith "f32" then 9 else 18) l)) msgs vars
+  | "approx" => layerBy S (checkApprox S) msgs vars
+  | _ => layerBy S (checkAmin S) msgs vars
+
+def handleC05LF (ty : String) (calls out : List String) : String :=
+  let f32 := ty.endsWith "f32"
+  let tolV : Float := if f32 then 1e-5 else 1e-12
+  let rec go : List String → List String → Option String
+    | m :: v :: rest, om :: ov :: orest =>
+      (match parsePairsF m, parseFs v, parsePairsF om, parseFs ov with
+       | some msgs, some vars, some omsgs, some ovars =>
+         (match layerModel ty msgs vars with
+          | some (mm, mv) =>
+            if !closeTanh ty mm omsgs then some s!"layered-message-differs-from-flooding-rule-on-extrinsics model={showPairsF mm} impl={om}"
+            else
+              -- "followed by adding the new message": var' = (var − old) + new, with the implementation's own new message
+              -- (raw LLR messages of two correct evaluations may differ near saturation, so the model's messages are not used here)
+              let want := (msgs.zip omsgs).foldl (fun vs p => vs.set p.1.1 ((vs.getD p.1.1 0 - p.1.2) + p.2.2)) vars
+              let _ := mv
+              if !(want.length == ovars.length && (want.zip ovars).all (fun p => close p.1 p.2 tolV tolV)) then
+              some "variable-not-updated-to-extrinsic-plus-new-message"
+            else go rest orest
+          | none => some "model-panic")
+       | _, _, _, _ => some "unparsable")
+    | [], [] => none
+    | _, ["panic"] => some "panic"
+    | _, _ => some "arity"
+  verdict out out (go calls out)
+
 end LdpcV.Driver.C04F
